@@ -265,9 +265,9 @@ class EarleyParser(Parser):
         self.epsilon = nullable(self.cgrammar)
 
     def chart_parse(self, words, start):
-        alt = tuple(*self.cgrammar[start])
         chart = [Column(i, tok) for i, tok in enumerate([None, *words])]
-        chart[0].add(State(start, alt, 0, chart[0]))
+        for alt in self.cgrammar[start]:
+            chart[0].add(State(start, tuple(alt), 0, chart[0]))
         return self.fill_chart(chart)
 
     def scan(self, col, state, letter):
